@@ -22,6 +22,7 @@ import (
 	"fmt"
 	"net"
 	"os"
+	"strings"
 	"sync"
 	"time"
 
@@ -48,8 +49,11 @@ type caseIn struct {
 	ConsumeUS int `json:"consume_us,omitempty"`
 	// real runs: the delegate is the REAL scan.NewIPRequestGenerator(scan.NewIPGenerator()) over this
 	// subnet; Passes complete passes are collected before the cancellation
-	Real   string `json:"real,omitempty"`
-	Passes int    `json:"passes,omitempty"`
+	// rendezvous runs: cancel this long after the first pass channel was closed, i.e. while the
+	// generator pauses between two passes (used with a long rescan interval)
+	CancelPauseMS int    `json:"cancel_pause_ms,omitempty"`
+	Real          string `json:"real,omitempty"`
+	Passes        int    `json:"passes,omitempty"`
 }
 
 type caseOut struct {
@@ -164,7 +168,7 @@ func runTrace(in caseIn) caseOut {
 		cancelled = true
 		d.cancelWith(cancel)
 		kPos = len(out.Trace)
-		out.Trace = append(out.Trace, []interface{}{"K"})
+		out.Trace = append(out.Trace, []interface{}{"K", d.now()})
 	}
 	if in.CancelAfter == -1 {
 		doCancel()
@@ -181,12 +185,18 @@ func runTrace(in caseIn) caseOut {
 	}
 	var curCh chan *scan.Request
 	var pending []*scan.Request
+	var pauseTimer <-chan time.Time
+	pauseArmed := false
 	closeCur := func() {
 		t := d.now()
 		close(curCh)
 		curCh = nil
 		out.Closes = append(out.Closes, t)
 		out.Trace = append(out.Trace, []interface{}{"C", t})
+		if in.CancelPauseMS > 0 && pauseTimer == nil && !pauseArmed {
+			pauseArmed = true
+			pauseTimer = time.After(time.Duration(in.CancelPauseMS) * time.Millisecond)
+		}
 	}
 	adopt := func(ci callInfo) {
 		curCh, pending = ci.ch, ci.reqs
@@ -257,6 +267,9 @@ func runTrace(in caseIn) caseOut {
 			}
 		case <-failTimer:
 			failTimer = nil
+			doCancel()
+		case <-pauseTimer:
+			pauseTimer = nil
 			doCancel()
 		case <-watchdog:
 			out.Stuck = true
@@ -526,10 +539,12 @@ func cases(seed int64, nTrace, nSeq, everyIndex, nSlow int) []caseIn {
 	// fixed small scripts
 	if nTrace > 0 || everyIndex > 0 {
 		cs = append(cs,
-		caseIn{Class: "trace-two-passes", Script: []passIn{{Reqs: []int{1, 2, 3}}, {Reqs: []int{4, 5}}}, RescanUS: 15000, CancelAfter: never},
-		caseIn{Class: "trace-fail-second", Script: []passIn{{Reqs: []int{1, 2}}, {Fail: true, Reqs: []int{}}, {Reqs: []int{9}}}, RescanUS: 15000, CancelAfter: never},
-		caseIn{Class: "trace-fail-first", Script: []passIn{{Fail: true, Reqs: []int{}}, {Reqs: []int{1}}}, RescanUS: 15000, CancelAfter: never},
-		caseIn{Class: "trace-precancel", Script: []passIn{{Reqs: []int{1, 2, 3}}, {Reqs: []int{4}}}, RescanUS: 15000, CancelAfter: -1},
+			caseIn{Class: "trace-two-passes", Script: []passIn{{Reqs: []int{1, 2, 3}}, {Reqs: []int{4, 5}}}, RescanUS: 15000, CancelAfter: never},
+			caseIn{Class: "trace-fail-second", Script: []passIn{{Reqs: []int{1, 2}}, {Fail: true, Reqs: []int{}}, {Reqs: []int{9}}}, RescanUS: 15000, CancelAfter: never},
+			caseIn{Class: "trace-fail-first", Script: []passIn{{Fail: true, Reqs: []int{}}, {Reqs: []int{1}}}, RescanUS: 15000, CancelAfter: never},
+			caseIn{Class: "trace-precancel", Script: []passIn{{Reqs: []int{1, 2, 3}}, {Reqs: []int{4}}}, RescanUS: 15000, CancelAfter: -1},
+			// cancelled 100 ms into a pause of 1.5 s between two passes: the stream must end, no further pass
+			caseIn{Class: "trace-cancel-in-long-pause", Script: []passIn{{Reqs: []int{1, 2}}, {Reqs: []int{3}}, {Reqs: []int{4}}}, RescanUS: 1500000, CancelAfter: never, CancelPauseMS: 100},
 			caseIn{Class: "trace-empty-passes", Script: []passIn{{Reqs: []int{}}, {Reqs: []int{}}, {Reqs: []int{7}}}, RescanUS: 8000, CancelAfter: never},
 		)
 	}
@@ -649,6 +664,7 @@ func main() {
 	capMS := flag.Int("capms", 2000, "internal: capture duration")
 	e2e := flag.Int("e2e", 0, "end-to-end runs of `sx arp --live` in a private network namespace")
 	sxPath := flag.String("sx", "", "path of the sx binary for -e2e")
+	e2eIdx := flag.String("e2eidx", "", "run only these e2e configurations (comma separated indices), e.g. to confirm a finding")
 	e2eBig := flag.Bool("e2ebig", false, "-e2e runs only the rate-limited /23 configurations (passes longer than the interval)")
 	flag.Parse()
 	if *capIf != "" {
@@ -705,14 +721,30 @@ func main() {
 		if *e2eBig {
 			configs = configs[4:]
 		}
-		e2eOuts = make([]e2eOut, *e2e)
+		idxs := make([]int, 0, *e2e)
 		for i := 0; i < *e2e; i++ {
+			idxs = append(idxs, i)
+		}
+		if *e2eIdx != "" {
+			idxs = idxs[:0]
+			for _, f := range strings.Split(*e2eIdx, ",") {
+				var k int
+				if _, err := fmt.Sscan(f, &k); err == nil {
+					idxs = append(idxs, k)
+				}
+			}
+		}
+		e2eOuts = make([]e2eOut, len(idxs))
+		e2eSem := make(chan struct{}, 4) // at most four namespaces with a scan at a time
+		for j, i := range idxs {
 			wg.Add(1)
-			go func(i int) {
+			go func(j, i int) {
 				defer wg.Done()
+				e2eSem <- struct{}{}
+				defer func() { <-e2eSem }()
 				c := configs[i%len(configs)]
-				e2eOuts[i] = runE2E(*sxPath, self, wd, i, c.interval+10*(i/len(configs)), c.run, c.exclude, c.rate, c.prefix)
-			}(i)
+				e2eOuts[j] = runE2E(*sxPath, self, wd, i, c.interval+10*(i/len(configs)), c.run, c.exclude, c.rate, c.prefix)
+			}(j, i)
 		}
 	}
 	wg.Wait()
